@@ -344,15 +344,24 @@ def oracle_tele_hist(case, ctx):
     s.agent.position = Position(*home)
     got = set()
     radix = None
+    scripted = True
     for v in range(len(partners) + 2):
         rng = Scripted([v])
+        before = rng.bit_generator.state['state']['state']
         n = guarded(ctx, 'teleport (after the edits)', transition_with_copy, tele, s, A, rng=rng)
         got.add((n.agent.position.y, n.agent.position.x))
         radix = rng.radices[0] if rng.radices else None
+        if rng.unscripted or rng.bit_generator.state['state']['state'] != before or (len(partners) > 1 and not rng.radices):
+            scripted = False         # the choice is drawn in a way the script cannot steer: sample seeds instead (miss probability < 1e-20)
+    if not scripted:
+        got = set()
+        for k in range(256):
+            n = guarded(ctx, 'teleport (after the edits)', transition_with_copy, tele, s, A, rng=make_rng(1000 + k))
+            got.add((n.agent.position.y, n.agent.position.x))
     if got != set(partners):
         ctx.fail(f'after the world was edited ({[e[0] for e in case["edits"]]}) and the agent put back on its telepod at {home}: destinations over all outcomes of the choice {sorted(got)}, '
                  f'same-coloured telepods now {sorted(partners)} (choice among {radix})', {'kind': 'teleport_possibility', 'aspect': 'history'})
-    ctx.ev.case(case, nt=True, classes=sorted({'edit:' + e[0] for e in case['edits']}) + [f'partners_now:{min(len(partners), 3)}'])
+    ctx.ev.case(case, nt=True, classes=sorted({'edit:' + e[0] for e in case['edits']}) + [f'partners_now:{min(len(partners), 3)}', 'choice_scripted' if scripted else 'choice_sampled_256_seeds'])
 
 
 from vgv import worldedit  # noqa: E402
